@@ -23,7 +23,11 @@ func (fc *FnCtx) guardHook(st *State, kind, target string, vals map[string]Val, 
 				env.vars[k] = envVar{t, typs[k]}
 			}
 		}
-		goal := fc.transBool(env, g.Cond)
+		goal := fc.guardGoal(env, g.Cond)
+		if goal == nil {
+			fc.guardCount[kind+" "+g.Target]++
+			continue
+		}
 		fc.guardCount[kind+" "+g.Target]++
 		ord := fc.guardCount[kind+" "+g.Target] - 1
 		name := fmt.Sprintf("%s#guard#%s:%s.%d", fc.fnName(), kind, g.Target, ord)
@@ -64,6 +68,14 @@ func (fc *FnCtx) fieldWriteHook(a *Addr, st *State, v *Term) {
 	old := fc.loadRoot(a, st)
 	vals := map[string]Val{"obj": a.Ref, "val": v, "oldval": old}
 	typs := map[string]types.Type{"obj": types.Typ[types.UnsafePointer], "val": a.Type, "oldval": a.Type}
+	// obj gets the pointer type of the struct owning the field when it is a named type of this package
+	if i := strings.Index(short, "."); i > 0 && fc.fn.Pkg != nil {
+		if o := fc.fn.Pkg.Pkg.Scope().Lookup(short[:i]); o != nil {
+			if _, isS := isStructType(o.Type()); isS {
+				typs["obj"] = types.NewPointer(o.Type())
+			}
+		}
+	}
 	if fc.con != nil {
 		fc.guardHook(st, "store", short, vals, typs)
 	}
